@@ -1,5 +1,6 @@
 import LimeModel.Generated
 import LimeModel.Envelope
+import LimeModel.ServerHs
 /-!
 # Tie theorems: the tables and constants the model is written with equal the ones regenerated
 from the lime-go sources on this run (`LimeModel/Generated.lean`, written by `harness/cmd/facts`).
@@ -68,5 +69,12 @@ theorem envelopeType_order_tie :
 /-- the separators of the three text grammars (mirrored by `parseIdentity`, `parseNode`, `parseMT`) -/
 theorem separators_tie :
     Generated.identitySeps = ["@"] ∧ Generated.nodeSeps = ["/"] ∧ Generated.mediaTypeSeps = ["+", "/"] := by decide
+
+open LimeModel.ServerHs in
+/-- `SessionState.Step`: the model's order of the session states is the source's -/
+theorem step_tie :
+    [SState.new, .negotiating, .authenticating, .established, .finishing, .finished, .failed].map
+        (fun s => (s.name, (s.step : Int))) =
+      Generated.sessionStateStep.map (fun p => (p.1.toList, p.2)) := by decide
 
 end Props.Tie
